@@ -40,6 +40,26 @@ CHECKS = {
    text="TLC shows on the specification that every byte shape it decodes re-encodes identically (8 MTypes x MACPayload length 0..40 x FOptsLen nibble x FPort byte x rejoin type); every shape plus seeded uniform strings and structure-aware mutations of valid frames go through UnmarshalBinary -> MarshalBinary -> UnmarshalBinary on the real code and TLC validates: accepted and MHDR-RFU-zero => re-encoding succeeds and is byte-identical, and decodes again to an equal frame.",
    note="Trusted: TLC, Frame.tla, projection. Coverage-guided fuzzing is not used (DESIGN sec. 4).",
    ref="3/C08"),
+ "C12": dict(
+   technique="Regional Parameters rules as TLA+ tables/functions (RegionalParameters.tla), sanity-checked by TLC; every band configuration's tables and accessor results recorded through a read-only hook and validated by TLC (fully enumerated)",
+   text="All 24 band names x repeater x dwell-time are instantiated; for each, the hook snapshot (data-rate flags, RX1 table, channels) and the results of GetRX1DataRateIndex for DR -2..16 x offset -2..9, GetRX1ChannelIndex/Frequency for every uplink channel, channel accessors for index -2..n+1 are recorded in one event and TLC checks them against the region's rule (same channel / mod 8 / mod 48, max(DR-offset,floor) or the US915/AU915 tables, AS923/IN865 effective offsets), closedness over downlink data-rates, monotone step<=1, errors for invalid/negative arguments; ping-slot frequencies for seeded DevAddr/beacon times against the fixed/hopping rule.",
+   note="Trusted: TLC, the offline transcription of the Regional Parameters (Unknown cells constrain nothing), read-only snapshot hook, projection. Finite space fully enumerated except DevAddr/beacon time.",
+   ref="3/C12"),
+ "C13": dict(
+   technique="TLA+ Regional Parameters tables + structural relations; all configurations x versions x revisions x data-rates enumerated on the real code and validated by TLC",
+   text="For every configuration TLC checks on the recorded snapshot and accessor results: every data-rate index handed out (channel ranges, RX1 results and table keys, RX2 default, enabled uplink data-rates) is defined; GetDataRateIndex inverts GetDataRate in each supported direction; (unknown,unknown) and every version/revision string resolve by the latest-fallback rule and every defined data-rate has a latest size; every listed size has M=N+8, N<=242 ((0,0) exempt), repeater<=non-repeater, non-decreasing as SF decreases at equal bandwidth within a direction; data-rate definitions, default channels, RX2 defaults, delays and TX-power steps equal the transcribed Regional Parameters values.",
+   note="Trusted: TLC, offline transcription (Unknown: LR-FHSS rows, per-revision absolute sizes, US915/AU915 TX-power step count), snapshot hook. Fully enumerated.",
+   ref="3/C13"),
+ "C14": dict(
+   technique="independent LinkADRReq ChMaskCntl semantics in TLA+ (ChannelPlan.tla); reference planner model checked by TLC over all network x device patterns of reduced plans; recorded planner outputs on real bands validated by TLC (all 2^n device subsets for small plans)",
+   text="TLC checks on reduced plans (5 standard + 3 custom channels, block size 4, all 256 enable patterns x all 256 device subsets) that a reference planner reaches exactly Target with <= blocks+1 payloads and none when the device matches; on the real bands, histories of Add/Disable/Enable followed by structured and random device sets (and ALL subsets of <=10/16-channel plans) are recorded with the generated payloads, and TLC applies them with the specification's own LinkADRReq semantics (incl. ChMaskCntl 6/7 of US915/AU915) and demands result = Target, encodable payloads, the count bound, minimality, and agreement of the library's apply function.",
+   note="Trusted: TLC, ChannelPlan.tla, snapshot hook. Device sets are subsets of the plan.",
+   ref="3/C14"),
+ "C15": dict(
+   technique="channel-plan state machine in TLA+; TLC explores all short histories with bad indices; recorded histories (arbitrary int arguments, all bands) validated statefully by TLC after every call; CFList and cross-layer MAC encodability events",
+   text="TLC explores all histories (<=4/5 ops) over the argument palette {-1,0,n-1,n,n+5} x {0, existing, new frequency} checking the partitions and that standard channels only change `enabled`; seeded histories of up to 30 Add/Disable/Enable calls with arbitrary ints on all 14 bands are recorded with the full projection (every channel, five index lists, lookups) after every call and TLC steps the model alongside, demanding equality, the partitions on the observed lists, errors (never panics) for bad indices, matching lookups, the CFList rule per protocol version, and that CFLists, RX2/ping-slot/beacon frequencies and channels encode into join-accepts/MAC commands and decode back.",
+   note="Trusted: TLC, ChannelPlan.tla, MACCommands/Frame tables, snapshot hook. Known finding: ISM2400 frequencies are not encodable outside NewChannelReq.",
+   ref="3/C15"),
  "C07": dict(
    technique="TLA+ table-driven MAC-command/registry specification; TLC enumerates values and registration histories (replayed on the real code) and validates recorded traces",
    text="TLC exhaustively explores the MAC-command tables (all values of <=1/2-byte payloads, boundary palettes for longer ones) and all registration histories of the Registry model (self-delimiting, direction-only invariants); every explored value/history is executed on the real library (histories in fresh processes) and, with seeded full-domain values and command streams, validated event by event against the trace specifications.",
